@@ -22,6 +22,7 @@ from .value import (
     TypedValue,
     TypeVarValue,
     Value,
+    flatten_values,
     is_overlapping,
     unannotate,
     unite_values,
@@ -55,6 +56,10 @@ class IsAssignablePredicate:
     pattern_value: Value
     ctx: CanAssignContext
     positive_only: bool
+    # Whether the predicate stands for a runtime isinstance() check. Unlike
+    # assignability, isinstance() does not follow the int -> float -> complex
+    # promotion.
+    runtime_check: bool = False
 
     def __call__(self, value: Value, positive: bool) -> Optional[Value]:
         compatible = is_overlapping(self.pattern_value, value, self.ctx)
@@ -71,8 +76,42 @@ class IsAssignablePredicate:
             if self.pattern_value.is_assignable(
                 value, self.ctx
             ) and not is_universally_assignable(value, unannotate(self.pattern_value)):
+                if self.runtime_check:
+                    return _non_instances(value, self.pattern_value)
                 return None
         return value
+
+
+_PROMOTED_TYPES = {float: (int,), complex: (float, int)}
+
+
+def _non_instances(value: Value, pattern_value: Value) -> Optional[Value]:
+    """The part of value, which is assignable to pattern_value, that still fails
+    isinstance(): a float may be an int at runtime, and an int is never a float."""
+    inner = unannotate(value)
+    if isinstance(inner, KnownValue):
+        typ = type(inner.val)
+        candidates = [typ]
+    elif isinstance(inner, TypedValue) and isinstance(inner.typ, type):
+        typ = inner.typ
+        candidates = [typ, *_PROMOTED_TYPES.get(typ, ())]
+    else:
+        return None
+    pattern_types = [
+        subval.typ
+        for subval in flatten_values(pattern_value, unwrap_annotated=True)
+        if isinstance(subval, TypedValue) and isinstance(subval.typ, type)
+    ]
+    remaining = [
+        candidate
+        for candidate in candidates
+        if not any(safe_issubclass(candidate, pattern) for pattern in pattern_types)
+    ]
+    if not remaining or not pattern_types:
+        return None
+    if remaining == [typ]:
+        return value
+    return unite_values(*[TypedValue(candidate) for candidate in remaining])
 
 
 _OPERATOR = {
